@@ -297,6 +297,15 @@ def url_literals(prog, body, param_filter=None):
     css_url = 0
     seen = set()
 
+    S0 = sym.Sym(prog, inline_depth=0)
+
+    def about_import(b, t, depth):
+        """at the top level (handle_item) only tests of the imported name count, not string tests of other
+        item arms (e.g. the `!` test of a comment's text)"""
+        if depth > 0 or not b.def_.endswith("transform::handle_item"):
+            return True
+        return "as Import" in repr(S0.operand(b, t["args"][0]))
+
     def scan(b, depth):
         nonlocal css_url
         if b.def_ in seen or depth > 2:
@@ -305,6 +314,8 @@ def url_literals(prog, body, param_filter=None):
         direct = False
         for bi, t in b.calls():
             n = mir.callee_name(t) or ""
+            if (n.endswith("<str>::starts_with") or n.endswith("<str>::ends_with")) and not about_import(b, t, depth):
+                continue
             if n.endswith("<str>::starts_with"):
                 if t["args"][1].get("v"):
                     pre.add(t["args"][1]["v"])
